@@ -212,7 +212,18 @@ def run_job(job):
                     elif valid_for(cls, alt):
                         viol.append({"sig": "C11 control: valid field swap rejected %s.%s" % (kind, name),
                                      "what": "%s: %s.%s := valid value from another run rejected: %s" % (su, kind, name, r.err)})
-                for icls, bad in cand_cache[key]:
+                cands = list(cand_cache[key])
+                if thorough and off is not None:
+                    # every value of the first and of the last byte of the genuine field, kept when the model calls it invalid
+                    for pos in (0, ln - 1):
+                        for v_ in range(256):
+                            if v_ != cur[pos]:
+                                if pos == 0 and v_ == 5 and cls in "EP" and grp in CURVES:
+                                    # SEC1 compact form of a VALID point: an alternative encoding (C10's subject for the
+                                    # native decoders), not an invalid element in C11's sense - not judged here
+                                    continue
+                                cands.append(("byte%d-sweep" % (0 if pos == 0 else -1), cur[:pos] + bytes([v_]) + cur[pos + 1:]))
+                for icls, bad in cands:
                     if len(bad) != ln:
                         continue
                     if valid_for(cls, bad):
